@@ -304,7 +304,7 @@ func ruleG13(c *Ctx) *RuleResult {
 				}
 			})
 			if len(others) != 1 {
-				r.fail(key, c.Pos(lc.Pos()), FuncName(fn), what, fmt.Sprintf("%d calls of %s for other streams next to the one for m.leadingStream (expected one, inside a range over m.streams)", len(others), callee.Name()))
+				r.undecided("G13: %s has %d calls of %s next to the one for m.leadingStream; the rule knows the form `one call inside a range over m.streams` only", FuncName(fn), len(others), callee.Name())
 				continue
 			}
 			oc := others[0]
@@ -316,12 +316,18 @@ func ruleG13(c *Ctx) *RuleResult {
 				ia, _ = ld.X.(*ssa.IndexAddr)
 			}
 			if ia == nil {
-				r.fail(key, c.Pos(oc.Pos()), FuncName(fn), what, "the receiver is not an element of a range over m.streams: "+recv.String())
+				r.undecided("G13: in %s the receiver of %s is not an element of a ranged-over slice (%s): form not known to the rule", FuncName(fn), callee.Name(), recv.String())
 				continue
 			}
 			if f, _ := loadedField(ia.X); f != streamsF {
-				r.fail(key, c.Pos(oc.Pos()), FuncName(fn), what,
-					"the range is over "+describeVal(ia.X)+", not over the whole m.streams: the leading stream is the video one wherever it is listed, so with a non-video track listed before it a stream is never rotated (its playlist blocks for ever, its units are lost) and the leading one is rotated twice")
+				if sl, isSlice := ia.X.(*ssa.Slice); isSlice {
+					if sf, _ := loadedField(sl.X); sf == streamsF && (sl.Low != nil || sl.High != nil) {
+						r.fail(key, c.Pos(oc.Pos()), FuncName(fn), what,
+							"the range is over a sub-slice of m.streams, i.e. the other streams are picked by position: the leading stream is the video one wherever it is listed, so with a non-video track listed before it a stream is never rotated (its playlist blocks for ever, its units are lost) and the leading one is rotated twice")
+						continue
+					}
+				}
+				r.undecided("G13: in %s the range is over %s, not over m.streams: form not known to the rule", FuncName(fn), describeVal(ia.X))
 				continue
 			}
 			isRange, over := rangeIndexOver(ia.Index)
@@ -789,7 +795,7 @@ func ruleF18(c *Ctx) *RuleResult {
 			}
 			bo, ok := val.(*ssa.BinOp)
 			if !ok || bo.Op != token.ADD {
-				r.fail(key, c.Pos(st.Pos()), FuncName(fn), what, "the stored id is not a sum MediaSequence + position")
+				r.undecided("F18: the id stored by %s is not a sum MediaSequence + position: form not known to the rule", FuncName(fn))
 				continue
 			}
 			var base ssa.Value
@@ -800,7 +806,7 @@ func ruleF18(c *Ctx) *RuleResult {
 				base, pos = b, bo.X
 			}
 			if base == nil {
-				r.fail(key, c.Pos(st.Pos()), FuncName(fn), what, "no MediaSequence operand in "+bo.String())
+				r.undecided("F18: no MediaSequence operand in the id stored by %s: form not known to the rule", FuncName(fn))
 				continue
 			}
 			// every Segments list that the position is searched in
@@ -839,7 +845,7 @@ func ruleF18(c *Ctx) *RuleResult {
 			case bad != "":
 				r.fail(key, c.Pos(st.Pos()), FuncName(fn), what, bad+": on a live playlist whose window has moved the remembered id is stale, the next reload re-downloads a segment or fails with `next segment not found`")
 			case cnt == 0:
-				r.fail(key, c.Pos(st.Pos()), FuncName(fn), what, "the position is not the result of a search over a segment list")
+				r.undecided("F18: in %s the position added to MediaSequence is not the result of a search over a segment list: form not known to the rule", FuncName(fn))
 			default:
 				r.ok(key, c.Pos(st.Pos()), FuncName(fn), what, fmt.Sprintf("%d search(es) over the Segments of the same playlist value as the MediaSequence operand", cnt))
 			}
@@ -873,7 +879,7 @@ func ruleF19(c *Ctx) *RuleResult {
 			// value: (url.Values).Encode() on a Values obtained from (*url.URL).Query() of `base`
 			call, ok := st.Val.(*ssa.Call)
 			if !ok || !isMethodNamed(call.Call.StaticCallee(), "net/url", "Values", "Encode") {
-				r.fail(key, c.Pos(st.Pos()), FuncName(fn), what, "the stored query is not url.Values.Encode(): "+st.Val.String())
+				r.undecided("F19: the query stored by %s is not a url.Values.Encode() result: form not known to the rule", FuncName(fn))
 				return
 			}
 			src := canon(call.Call.Args[0])
@@ -972,7 +978,7 @@ func ruleF20(c *Ctx) *RuleResult {
 			}
 			walk(call.Call.Args[2])
 			if len(nums) != 2 {
-				r.fail(key, c.Pos(call.Pos()), FuncName(fn), what, fmt.Sprintf("the header value is not `bytes=<first>-<last>` built from two formatted numbers (%d found)", len(nums)))
+				r.undecided("F20: the Range header of %s is not built from two formatted numbers (%d found): form not known to the rule", FuncName(fn), len(nums))
 				return
 			}
 			s0, s1 := map[string]bool{}, map[string]bool{}
@@ -1101,7 +1107,7 @@ func ruleV4e(c *Ctx) *RuleResult {
 		}
 		switch {
 		case nUpd == 0:
-			r.fail(key, c.Pos(s.lk.Pos()), FuncName(fn), what, "no insertion into the map found")
+			r.undecided("%s: %s — %s (the construct this rule is anchored on was not found: no verdict)", key, what, "no insertion into the map found")
 		case bad != "":
 			r.fail(key, c.Pos(s.lk.Pos()), FuncName(fn), what, bad+": the unchecked lookup here yields nil for that element and the dereference panics in a pool goroutine")
 		default:
@@ -1123,4 +1129,180 @@ func firstUse(v ssa.Value) ssa.Instruction {
 		return v.(ssa.Instruction)
 	}
 	return first
+}
+
+func init() {
+	registerRule("F21", "clock-rate consistency: a decode/presentation time of a track (a value computed from a pts/dts source) is converted to wall time, or rescaled, with that track's ClockRate (or a clockRate parameter) — never with another rate such as the audio sample rate", ruleF21)
+}
+
+func isClockRateValue(v ssa.Value) bool {
+	v = stripConv(v)
+	switch x := v.(type) {
+	case *ssa.Parameter:
+		return strings.EqualFold(x.Name(), "clockRate") || strings.EqualFold(x.Name(), "timeScale")
+	case *ssa.FreeVar:
+		return strings.EqualFold(x.Name(), "clockRate")
+	}
+	if f, _ := loadedField(v); f != nil {
+		return strings.EqualFold(f.Name(), "ClockRate") || strings.HasSuffix(f.Name(), "ClockRate") || strings.EqualFold(f.Name(), "TimeScale") || strings.HasSuffix(f.Name(), "TimeScale")
+	}
+	if fv, ok := v.(*ssa.Field); ok {
+		if f, _ := fieldOfValue(fv); f != nil {
+			return strings.EqualFold(f.Name(), "ClockRate")
+		}
+	}
+	return false
+}
+
+func ruleF21(c *Ctx) *RuleResult {
+	r := &RuleResult{Floor: 15, FloorWhat: "conversions of track timestamps"}
+	t2d := c.Func("", "timestampToDuration")
+	mad := c.Func("", "multiplyAndDivide")
+	if t2d == nil || mad == nil {
+		r.undecided("timestampToDuration / multiplyAndDivide not found")
+		return r
+	}
+	n := 0
+	per := map[*ssa.Function]int{}
+	for _, fn := range c.Funcs {
+		if !InRootPkg(fn) {
+			continue
+		}
+		allInstrs(fn, func(in ssa.Instruction) {
+			call, ok := in.(*ssa.Call)
+			if !ok {
+				return
+			}
+			var x, rate ssa.Value
+			switch call.Call.StaticCallee() {
+			case t2d:
+				x, rate = call.Call.Args[0], call.Call.Args[1]
+			case mad:
+				x, rate = call.Call.Args[0], call.Call.Args[2]
+			default:
+				return
+			}
+			got := map[string]bool{}
+			tsSlice(x, map[ssa.Value]bool{}, got)
+			if !got["dts"] && !got["pts"] {
+				return
+			}
+			n++
+			per[fn]++
+			key := fmt.Sprintf("%s|%s#%d", FuncName(fn), call.Call.StaticCallee().Name(), per[fn])
+			what := "a track timestamp is converted with the track's clock rate"
+			if isClockRateValue(rate) {
+				r.ok(key, c.Pos(call.Pos()), FuncName(fn), what, "rate is "+describeVal(stripConv(rate)))
+			} else {
+				r.fail(key, c.Pos(call.Pos()), FuncName(fn), what,
+					"the rate is "+describeVal(stripConv(rate))+", not a ClockRate: whenever the two rates differ (a 90 kHz track clock with a 44.1/48 kHz sample rate) the wall-clock time of every unit after the first of a call is off by their ratio, and so is the PROGRAM-DATE-TIME of a segment that starts there")
+			}
+		})
+	}
+	r.Instances = n
+	return r
+}
+
+func init() {
+	registerRule("F22", "rescaling direction: where a stored time of a time converter (a field of the receiver) is rescaled with multiplyAndDivide(x, to, from), `from` is the rate stored next to it (a field of the same receiver) and `to` is the caller's clock rate (a parameter)", ruleF22)
+}
+
+func ruleF22(c *Ctx) *RuleResult {
+	r := &RuleResult{Floor: 2, FloorWhat: "rescalings of stored times"}
+	mad := c.Func("", "multiplyAndDivide")
+	if mad == nil {
+		r.undecided("multiplyAndDivide not found")
+		return r
+	}
+	n := 0
+	per := map[*ssa.Function]int{}
+	for _, fn := range c.Funcs {
+		if !InRootPkg(fn) || fn.Signature.Recv() == nil || len(fn.Params) == 0 {
+			continue
+		}
+		recv := fn.Params[0]
+		allInstrs(fn, func(in ssa.Instruction) {
+			call, ok := in.(*ssa.Call)
+			if !ok || call.Call.StaticCallee() != mad {
+				return
+			}
+			xf, xb := loadedField(stripConv(call.Call.Args[0]))
+			if xf == nil || xb != ssa.Value(recv) {
+				return
+			}
+			n++
+			per[fn]++
+			key := fmt.Sprintf("%s|rescale %s#%d", FuncName(fn), xf.Name(), per[fn])
+			what := "the stored time " + c.fieldName(xf) + " is rescaled from the rate stored with it to the caller's rate"
+			to, from := stripConv(call.Call.Args[1]), stripConv(call.Call.Args[2])
+			ff, fb := loadedField(from)
+			_, toIsParam := to.(*ssa.Parameter)
+			switch {
+			case ff == nil || fb != ssa.Value(recv):
+				r.fail(key, c.Pos(call.Pos()), FuncName(fn), what, "the divisor ("+describeVal(from)+") is not a rate stored in the same converter: the stored time is in the leading track's clock, so for a track with another clock rate (44.1 kHz audio next to 90 kHz video) the absolute time drifts by the ratio of the two rates")
+			case !toIsParam:
+				r.fail(key, c.Pos(call.Pos()), FuncName(fn), what, "the multiplier ("+describeVal(to)+") is not the caller's clock rate")
+			default:
+				r.ok(key, c.Pos(call.Pos()), FuncName(fn), what, "x * "+to.Name()+" / "+c.fieldName(ff))
+			}
+		})
+	}
+	r.Instances = n
+	return r
+}
+
+func init() {
+	registerRule("T7e", "descriptors are taken when a reader is handed out: no Read method of the storage package can reach os.Open/OpenFile (a reader obtained before Remove keeps working, as in the RAM backend), and every Reader() of a disk-backed type reaches os.Open before it returns", ruleT7e)
+}
+
+func ruleT7e(c *Ctx) *RuleResult {
+	r := &RuleResult{Floor: 3, FloorWhat: "Read / Reader methods of the storage package"}
+	isOpen := func(f *ssa.Function) bool {
+		return isFuncNamed(f, "os", "Open") || isFuncNamed(f, "os", "OpenFile") || isFuncNamed(f, "os", "Create")
+	}
+	stopOutside := func(f *ssa.Function) bool { return !InLib(f) && !isOpen(f) }
+	n := 0
+	for _, fn := range c.Funcs {
+		if fn.Pkg == nil || !strings.HasSuffix(fn.Pkg.Pkg.Path(), "/pkg/storage") || fn.Signature.Recv() == nil {
+			continue
+		}
+		switch fn.Name() {
+		case "Read":
+			n++
+			key := FuncName(fn) + "|no-open-in-read"
+			what := "Read does not open files (the descriptor was taken when the reader was created)"
+			var hit *ssa.Function
+			for g := range c.reach([]*ssa.Function{fn}, stopOutside) {
+				if isOpen(g) {
+					hit = g
+				}
+			}
+			if hit == nil {
+				r.ok(key, c.Pos(fn.Pos()), FuncName(fn), what, "no os.Open reachable")
+			} else {
+				r.fail(key, c.Pos(fn.Pos()), FuncName(fn), what, "os."+hit.Name()+" is reachable from Read: a reader obtained before File.Remove() fails with ENOENT at its first Read, while the RAM backend keeps serving it", c.reachPath([]*ssa.Function{fn}, hit)...)
+			}
+		case "Reader":
+			rn := namedOf(fn.Signature.Recv().Type())
+			if rn == nil || !strings.Contains(strings.ToLower(rn.Obj().Name()), "disk") {
+				continue
+			}
+			n++
+			key := FuncName(fn) + "|opens"
+			what := "Reader() of a disk-backed object opens the file itself"
+			found := false
+			for g := range c.reach([]*ssa.Function{fn}, stopOutside) {
+				if isOpen(g) {
+					found = true
+				}
+			}
+			if found {
+				r.ok(key, c.Pos(fn.Pos()), FuncName(fn), what, "os.Open reachable from Reader()")
+			} else {
+				r.fail(key, c.Pos(fn.Pos()), FuncName(fn), what, "no os.Open reachable from Reader(): the file is opened later (or never), so a reader handed out before Remove() cannot be used afterwards")
+			}
+		}
+	}
+	r.Instances = n
+	return r
 }
